@@ -359,6 +359,20 @@ func (pe *pathEnum) eventsOfInstr(in ssa.Instruction) []pathItem {
 			}
 		}
 	}
+	// resets of the catch flags of a context
+	if st, ok := in.(*ssa.Store); ok {
+		if base, f := fieldVar(st.Addr); f != nil && P.isPtrTo(cv(base).Type(), P.roles.SchemaCtx) {
+			for _, fl := range []*types.Var{P.roles.FCanCatch, P.roles.FExit, P.roles.FHasCaught} {
+				if fl != nil && sameField(f, fl) {
+					v := "set"
+					if c, isC := constBool(st.Val); isC && !c {
+						v = "reset"
+					}
+					out = append(out, pathItem{kind: "FLAG-" + fl.Name(), val: v, in: in})
+				}
+			}
+		}
+	}
 	// destination writes
 	var target, val ssa.Value
 	what := ""
